@@ -38,6 +38,7 @@ TECHNIQUE = "static analysis: path tables and symbolic terms over rustc-resolved
 def run(ctx):
     _run_main(ctx)
     _shared_r4(ctx)
+    _shared_r5(ctx)
 
 
 def _run_main(ctx):
@@ -346,3 +347,11 @@ def _shared_r4(ctx):
     """Rules of other properties that are necessary conditions of this one too (found by seeding round 4)."""
     with ctx.rule('R03.8', 'every returned message reaches the listener: the listener survives a successful hand-over and is cleared only on failure (shared with C13)', floor=2) as r:
         A.include(ctx, r, 'c13', 'R13.2', pick=('try_send_return',))
+
+
+def _shared_r5(ctx):
+    """Rules of other properties that are necessary conditions of this one too (found by seeding round 5)."""
+    from rules import arms as A
+    with ctx.rule('R03.9', "a returned message reaches the channel's current listener and a delivery its own consumer: re-registering replaces the listener, a server cancel removes one consumer only (shared with C13 / C11)", floor=3) as r:
+        A.include(ctx, r, 'c13', 'R13.3', pick=('io-side:',))
+        A.include(ctx, r, 'c11', 'R11.2', pick=('basic::Cancel',))
